@@ -15,7 +15,7 @@ RULE = ('workchains whose step registers n<=3 (thorough 4) awaitables (plain fut
         'assertion was evaluated or a failure was delivered')
 RULE += ('; also: completions while paused, registering steps inside if/elif/else/while bodies, one item under two keys, mapping results on re-assigned keys, a registering step that runs another process to completion (nested execute, re-entrant loop policy)')
 ASSUMPTIONS = ['pause/play: the workchain paused while the items complete, then played (finer interleavings are C06)', 'children are processes that wait for the harness (so completion is controlled)']
-REQUIRED = ['barrier_checks', 'ctx_checks', 'failures/exc', 'failures/killed', 'failures/cancel', 'kinds/fut', 'kinds/child', 'kinds/oldchild', 'how/ret', 'how/call', 'terminated_before_registration', 'failure_while_paused', 'nested_runs', 'nested_barrier_checks', 'nested_registered_before_inner_run', 'unprintable_failures', 'uncopyable_results', 'failure_callback_races', 'equal_children_runs']
+REQUIRED = ['barrier_checks', 'ctx_checks', 'failures/exc', 'failures/killed', 'failures/cancel', 'kinds/fut', 'kinds/child', 'kinds/oldchild', 'how/ret', 'how/call', 'terminated_before_registration', 'failure_while_paused', 'nested_runs', 'nested_barrier_checks', 'nested_registered_before_inner_run', 'unprintable_failures', 'uncopyable_results', 'failure_callback_races', 'equal_children_runs', 'falsy_results']
 BOUNDS = {'quick': 'n<=3 awaitables, all completion orders, placements sampled on a grid', 'thorough': 'n<=4, all placements'}
 
 
@@ -101,7 +101,7 @@ def gen_cases(tier, seed):
                     # (where a key is assigned again by a later step the results are mappings with different keys, like the outputs
                     # of two different children: the later result replaces the earlier one, it is not merged into it)
                     # (some results are objects that cannot be copied, some errors are falsy or have no printable form)
-                    val = ['value', {'r%d' % idx: idx} if name.startswith('reassign') else ('@NOCOPY' if rng.random() < 0.25 else 'v%d' % idx)] if spec[0] == 'value' else (
+                    val = ['value', {'r%d' % idx: idx} if name.startswith('reassign') else rng.choice(['@NOCOPY', '@NOCOPY', 0, '', [], 'v%d' % idx, 'v%d' % idx, 'v%d' % idx, 'v%d' % idx])] if spec[0] == 'value' else (
                         ['exc', rng.choice(['falsy-e%d', 'falsy-e%d', 'unprintable-e%d', 'unprintable-e%d', 'e%d', 'e%d', 'e%d']) % idx] if spec[0] == 'exc' else ['cancel'])
                     acts.append(['complete', idx, val])
                 else:
@@ -206,6 +206,8 @@ def run_case(case):
             obs['failures'][c[1][0]] = obs['failures'].get(c[1][0], 0) + 1
         if c[1][0] == 'exc' and len(c[1]) > 1 and 'unprintable' in str(c[1][1]):
             obs['unprintable_failures'] = obs.get('unprintable_failures', 0) + 1
+        if c[1][0] == 'value' and len(c[1]) > 1 and c[1][1] in (0, '', []):
+            obs['falsy_results'] = obs.get('falsy_results', 0) + 1
         if c[1][0] == 'value' and len(c[1]) > 1 and c[1][1] == '@NOCOPY':
             obs['uncopyable_results'] = obs.get('uncopyable_results', 0) + 1
     for st in steps:
